@@ -23,6 +23,9 @@ func famSesReent(t *testing.T, r *Rec) {
 	reentOverlap(r, cfg)
 	reentStalledUpload(r, cfg)
 	reentCallbackWindow(r, cfg)
+	reentUploadAcrossClose(r, cfg)
+	reentSlowCallback(r, cfg)
+	reentStalledPeer(r, cfg)
 	events := []string{"packetCreate", "flush", "drain", "packet", "message", "close", "cb"}
 	if r.thorough() {
 		events = append(events, "heartbeat", "upgrading", "upgrade")
@@ -247,5 +250,103 @@ func reentCallbackWindow(r *Rec, cfg string) {
 	if cbAfter >= 0 && cbAfter < 2 {
 		r.Violate("C18", "C18/callback/before-flush-of-its-batch/send-parked-in-packetCreate",
 			fmt.Sprintf("the callback of the second send ran after %d flush event(s): before the flush event of the batch that carries its packet", cbAfter), lines)
+	}
+}
+
+// reentUploadAcrossClose: a data request is still uploading when the buffered orderly close goes out with a poll:
+// the request is still answered (C11 "never none").
+func reentUploadAcrossClose(r *Rec, cfg string) {
+	a := encodeV4Payload([]epkt{{'4', "t", []byte("a1")}})
+	for _, how := range []string{"close0", "close1"} {
+		lines := []string{cfg, "ses hs polling 4 0 -"}
+		if how == "close0" {
+			lines = append(lines, "ses close s0 0", "ses postslow s0 "+hx(a), "ses poll s0", "ses unpark", "ses adv 10", "ses obs")
+		} else {
+			lines = append(lines, "ses postslow s0 "+hx(a), "ses close s0 1", "ses unpark", "ses adv 10", "ses obs")
+		}
+		outs, fault := runIsolated(lines, 12*time.Second)
+		r.scenarios++
+		r.Cover("reent/upload-across-close/" + how)
+		if fault != "" && !strings.Contains(fault, "main_bubble_goroutine_has_exited") {
+			r.Violate("C09", fmt.Sprintf("C09/%s/upload-across-close/%s", strings.SplitN(fault, ":", 2)[0], how), "a data request uploading across the close of its session made the server "+fault, lines)
+			continue
+		}
+		last := parseObs(outs[len(outs)-1])
+		if last.pend != "-" {
+			r.Violate("C11", "C11/request-never-answered/upload-across-close/"+how, "a data request whose upload finished after its session's transport had closed was never answered: pending "+last.pend, lines)
+		}
+	}
+}
+
+// reentSlowCallback: the first callback of a batch sends again, with a callback of its own, and is slow to return:
+// the callbacks still run in the order of their sends (C18).
+func reentSlowCallback(r *Rec, cfg string) {
+	// (WebSocket only: the polling writer runs the callbacks while it holds the transport's lock, and a goroutine
+	// waiting for a mutex is not a durable block for the bubble; a slow callback there only delays the next write)
+	for _, tr := range []string{"websocket"} {
+		lines := []string{cfg, fmt.Sprintf("ses hs %s 4 0 -", tr)}
+		if tr == "polling" {
+			lines = append(lines, "ses send s0 t 78 0 0 -", "ses send s0 t 6131 0 1 -", "ses send s0 t 6231 0 1 -", "ses react cb sendcbpark", "ses poll s0", "ses poll s0", "ses unpark", "ses poll s0", "ses poll s0", "ses obs")
+		} else {
+			// a batch in flight, two sends with callbacks behind it: they form one batch
+			lines = append(lines, "ses+ send s0 t 78 0 0 -", "ses+ send s0 t 6131 0 1 -", "ses+ send s0 t 6231 0 1 -", "ses react cb sendcbpark", "ses obs", "ses unpark", "ses obs")
+		}
+		outs, fault := runIsolated(lines, 12*time.Second)
+		r.scenarios++
+		r.Cover("reent/slow-callback-that-sends/" + tr)
+		if fault != "" && !strings.Contains(fault, "main_bubble_goroutine_has_exited") {
+			r.Violate("C18", "C18/reentrant-listener/"+strings.SplitN(fault, ":", 2)[0]+"/slow-callback-that-sends/"+tr, "a send callback that sends again and is slow to return made the server "+fault, lines)
+			continue
+		}
+		var order []string
+		for _, out := range outs {
+			if out == "-" || out == "ok" {
+				continue
+			}
+			for _, e := range parseObs(out).events {
+				if e.who == "s0" && e.name == "cb" {
+					order = append(order, e.args[0])
+				}
+			}
+		}
+		if got := strings.Join(order, ","); got != "1,2,3" {
+			r.Violate("C18", "C18/callback/order/slow-callback-that-sends/"+tr, "callbacks ran in the order "+got+", want 1,2,3 (callback 1 sends the message whose callback is 3, then takes its time)", lines)
+		}
+	}
+}
+
+// reentStalledPeer: the peer of a WebSocket session has stopped reading, a batch is stuck in the connection:
+// Close(true) and Server.Close still close the session at once, once (C12).
+func reentStalledPeer(r *Rec, cfg string) {
+	big := hx(bytes_repeat('z', 300000))
+	for _, how := range []string{"ses close s0 1", "ses shutdown"} {
+		lines := []string{cfg, "ses hs websocket 4 0 -", "ses stall 0", "ses send s0 t 6c617374 0 0 -", "ses send s0 t " + big + " 0 0 -", how, "ses obs"}
+		outs, fault := runIsolated(lines, 12*time.Second)
+		r.scenarios++
+		name := strings.Fields(how)[1]
+		r.Cover("reent/stalled-peer/" + name)
+		if fault != "" && !strings.Contains(fault, "main_bubble_goroutine_has_exited") {
+			r.Violate("C12", "C12/"+strings.SplitN(fault, ":", 2)[0]+"/stalled-peer/"+name, "closing a session whose peer has stopped reading made the server "+fault, lines)
+			continue
+		}
+		closes, state, reg := 0, "", ""
+		for _, out := range outs {
+			if out == "-" || out == "ok" {
+				continue
+			}
+			o := parseObs(out)
+			for _, e := range o.events {
+				if e.who == "s0" && e.name == "close" {
+					closes++
+				}
+			}
+			if st, ok := o.states[0]; ok {
+				state = st[0]
+			}
+			reg = o.reg
+		}
+		if state != "closed" || closes != 1 || reg != "-:0" {
+			r.Violate("C12", "C12/not-closed-at-once/stalled-peer/"+name, fmt.Sprintf("a batch is stuck in the connection of a peer that stopped reading; after %s the session is %s with %d close events, the table is %s", name, state, closes, reg), lines)
+		}
 	}
 }
